@@ -9,6 +9,7 @@ every generated file of the corpus, not by a theorem; see DESIGN.md section 7)."
     ('C01_package_clause_shape', 'replace_package_name_shape', 'target_package_name: the text is returned unchanged or with exactly one line "package x" rewritten; everything before and after that line is kept'),
     ('C01_package_clause_first', 'replace_package_name_first', 'it is the first such line that is rewritten (string literals and comments further down that mention the word package are not)'),
     ('C01_package_clause_absent', 'replace_package_name_absent', 'a text without a package line is returned as it is'),
+    ('C01_source_regexp', 'src_constants_agree', 'tie to the source: the regular expression of the package-clause rewrite and the import path constants, as read from main.go / imports.go / config.go on this run, are the ones the model uses'),
 ])
 
 T['C02'] = ("""C02 Each field maps to one attribute, named and typed as documented, everywhere.""", [
@@ -22,6 +23,9 @@ T['C02'] = ("""C02 Each field maps to one attribute, named and typed as document
     ('C02_declared_field_present', 'declared_field_in_message', 'every declared, not excluded, not embedded field of a message that builds has its attribute in the message'),
     ('C02_embedded_promoted', 'build_view_embedded', 'an embedded message contributes the attributes of its fields (same names and paths), not an attribute of its own'),
     ('C02_json_name', 'json_name_spec', 'the JSON tag name is the text before the first comma; "-" and absence mean none'),
+    ('C02_source_type_table', 'src_type_table_agrees', 'tie to the source: for every proto scalar type, the row of GetTerraformType as read from field_build_context.go on this run gives the attribute type, value type, element types, cast-to type, zero literal and cast-from type of the model'),
+    ('C02_source_type_rows_unique', 'src_type_rows_unique', 'each proto type constant occurs in exactly one row of that switch'),
+    ('C02_source_type_special', 'src_type_special_agrees', 'enum, time, duration, message and default rows'),
 ])
 
 T['C03'] = ("""C03 CopyTo into an empty schema-typed object is total and schema-conformant (proved for the class tf_ok:
@@ -143,6 +147,7 @@ by go build of the two-package layout).""", [
     ('C13_alias_not_keyword', 'clean_package_name_not_keyword', 'and never a Go keyword'),
     ('C13_with_type', 'with_type_qualifies', 'references to support packages (types, diag, attr, ...) are qualified the same way'),
     ('C13_no_panic', 'no_panic_prepend', 'qualification never fails at run time unless the package path contains an opening bracket'),
+    ('C13_source_builtin_types', 'src_builtin_types_agree', "tie to the source: the list of builtin type names of imports.go isBuiltinType, as read on this run, is the model's"),
 ])
 
 T['C14'] = ("""C14 Output is a deterministic function of descriptor and configuration (partial: Go's per-run map iteration
@@ -174,6 +179,10 @@ T['C16'] = ("""C16 Command-line and YAML configuration are equivalent channels."
     ('C16_plus_split', 'split_on_join', 'list parameters use + as separator'),
     ('C16_no_types', 'C16_no_types', 'without any type the plugin fails'),
     ('C16_bad_file', 'C16_bad_file', 'an unreadable or malformed configuration file makes the plugin fail'),
+    ('C16_source_cli_stage', 'src_read_from_cli_agrees', "tie to the source: the function regenerated from config.go readFromCLI on this run is the command-line stage of the model's read_config"),
+    ('C16_source_cli_stage_used', 'read_config_cli_after_yaml', 'and read_config returns only configurations produced by that stage'),
+    ('C16_source_cli_params', 'src_cli_params_documented', 'the nine (field, getter, parameter name) rows of readFromCLI'),
+    ('C16_source_yaml_keys', 'src_yaml_keys_documented', 'the yaml keys of Config, SchemaType and InjectedField as read from the struct tags are the documented ones (the ones the harness writes)'),
 ])
 
 T['C17'] = ("""C17 Custom-type fields are delegated to the user's three hooks.""", [
@@ -204,6 +213,7 @@ T['C19'] = ("""C19 Scalar and temporal values survive conversion exactly over th
     ('C19_time', 'time_round_trip', 'time instants (seconds, nanoseconds, zone)'),
     ('C19_scalar', 'scalar_round_trip', 'every scalar type at once, up to the sign of zero and nil/empty byte strings'),
     ('C19_field_partial', 'prim_field_round_trip', 'through the generated code of one scalar field'),
+    ('C19_source_cast_types', 'src_type_table_agrees', "tie to the source: the Go type each proto scalar type is cast from / to, as read from GetTerraformType on this run, is the model's (fixed32 -> uint32, sint64 -> int64, ...)"),
 ])
 
 T['C20'] = ("""C20 On an empty target, absence is rendered as null and presence as non-null.""", [
